@@ -298,20 +298,22 @@ package ast
 //@ ensures result != nil && fresh(result) && result.NodeType == TypeBlockStmt && result.elem == any(node)
 
 
+// (These shape facts are ASSUMED for the trees ParsePipeline returns; they are not obligations of
+// the constructors, which also run on error paths where a child may be nil.)
 // Shape facts of trees the parser returns (established by the constructors in
 // pkg/parser; list-element facts rest on "a nil child implies a recorded parse
 // error, and ParsePipeline returns no tree when an error was recorded").
 
 //@ struct ForInStmt
-//@ props C01 C05
+//@ props C01
 //@ invariant self.Varb != nil && self.Varb.NodeType == TypeIdentifier
 
 //@ struct IfelseStmt
-//@ props C01 C05
+//@ props C01
 //@ invariant forall i :: 0 <= i && i < len(self.IfList) ==> self.IfList[i] != nil
 
 //@ struct AssignmentExpr
-//@ props C01 C05
+//@ props C01
 //@ invariant len(self.LHS) >= 1 && len(self.RHS) >= 1
 //@ invariant forall i :: 0 <= i && i < len(self.LHS) ==> self.LHS[i] != nil
 //@ invariant forall i :: 0 <= i && i < len(self.RHS) ==> self.RHS[i] != nil
@@ -342,42 +344,42 @@ package ast
 //@ spec isStmtKind(n *Node) bool = n != nil && (n.NodeType == TypeIfelseStmt || n.NodeType == TypeForStmt || n.NodeType == TypeForInStmt || n.NodeType == TypeBreakStmt || n.NodeType == TypeContinueStmt)
 
 //@ struct UnaryExpr
-//@ props C13 C05
+//@ props C13
 //@ invariant !isStmtKind(self.RHS)
 //@ struct ParenExpr
-//@ props C13 C05
+//@ props C13
 //@ invariant !isStmtKind(self.Param) && self.Param != nil && self.Param.NodeType != TypeAssignmentExpr
 //@ struct InExpr
-//@ props C13 C05
+//@ props C13
 //@ invariant !isStmtKind(self.LHS) && !isStmtKind(self.RHS)
 //@ struct ConditionalExpr
-//@ props C13 C05
+//@ props C13
 //@ invariant !isStmtKind(self.LHS) && !isStmtKind(self.RHS)
 //@ struct ArithmeticExpr
-//@ props C13 C05
+//@ props C13
 //@ invariant !isStmtKind(self.LHS) && !isStmtKind(self.RHS)
 //@ struct SliceExpr
-//@ props C13 C05
+//@ props C13
 //@ invariant !isStmtKind(self.Obj) && !isStmtKind(self.Start) && !isStmtKind(self.End) && !isStmtKind(self.Step)
 //@ struct ListLiteral
-//@ props C13 C05
+//@ props C13
 //@ invariant forall i :: 0 <= i && i < len(self.List) ==> !isStmtKind(self.List[i])
 //@ struct MapLiteral
-//@ props C13 C05
+//@ props C13
 //@ invariant forall i :: 0 <= i && i < len(self.KeyValeList) ==> !isStmtKind(self.KeyValeList[i][0]) && !isStmtKind(self.KeyValeList[i][1])
 //@ struct IndexExpr
-//@ props C13 C05
+//@ props C13
 //@ invariant forall i :: 0 <= i && i < len(self.Index) ==> !isStmtKind(self.Index[i])
 //@ struct CallExpr
-//@ props C13 C05
+//@ props C13
 //@ invariant forall i :: 0 <= i && i < len(self.Param) ==> !isStmtKind(self.Param[i])
 //@ struct AssignmentExpr
 //@ invariant forall i :: 0 <= i && i < len(self.RHS) ==> !isStmtKind(self.RHS[i])
 //@ struct IfStmtElem
-//@ props C13 C05
+//@ props C13
 //@ invariant !isStmtKind(self.Condition)
 //@ struct ForStmt
-//@ props C13 C05
+//@ props C13
 //@ invariant !isStmtKind(self.Init) && !isStmtKind(self.Cond) && !isStmtKind(self.Loop)
 //@ struct ForInStmt
 //@ invariant !isStmtKind(self.Iter)
@@ -393,10 +395,10 @@ package ast
 // call arguments are never nil; a compiled grok attached to a call means the call went
 // through the full grok argument check
 //@ struct CallExpr
-//@ props C01 C05 C12
+//@ props C01 C12
 //@ invariant forall i :: 0 <= i && i < len(self.Param) ==> self.Param[i] != nil
 //@ invariant self.Grok != nil ==> 2 <= len(self.Param) && len(self.Param) <= 3
 
 //@ struct MapLiteral
-//@ props C01 C05 C08
+//@ props C01 C08
 //@ invariant forall i :: 0 <= i && i < len(self.KeyValeList) ==> self.KeyValeList[i][0] != nil
